@@ -197,7 +197,8 @@ func RefScan(src string) (toks []RTok, stop int) {
 				case d == c:
 					val += src[seg:i]
 					i++
-					ok := !escaped || validUTF8(val)
+					// escapes next to invalid UTF-8 in the literal's source text: value is a don't-care
+					ok := !escaped || validUTF8(src[start:i])
 					toks = append(toks, RTok{Kind: parser.TokenString, Start: start, End: i, Value: val, CheckValue: ok})
 					done = true
 				case d == '\n':
